@@ -1,9 +1,12 @@
 (* C13 Parameterised templates compile like their hand-expanded form.
    Both loaders consume only the text process_list returns, so it suffices that this text is
    the hand expansion: proved for the brace duplication (all lines, any number of groups and
-   alternatives) and for <expression> replacement (segment-wise). *)
+   alternatives) and for <expression> replacement (segment-wise); and for the loop over the lines of a file
+   (FileProofs): comments are cut from the first '#' to the end of the line, a `length` line of the accepted shape binds its
+   name for the lines below and writes nothing, a general line is written as the hand expansion of its substituted text, a
+   line without comment, parameter or group is copied verbatim, and text already written is never changed. *)
 From Coq Require Import List String Ascii Arith ZArith.
-From PC Require Import Base.Sexp Subst.VarSubst Subst.SubstProofs.
+From PC Require Import Base.Sexp Subst.VarSubst Subst.SubstProofs Subst.FileProofs.
 Import ListNotations.
 
 Theorem C13_duplicate_is_hand_expansion : forall pre segs, bfree pre -> Forall seg_ok segs ->
@@ -21,3 +24,53 @@ Theorem C13_angles_spec : forall tbl e segs pre fuel out, afree pre ->
   asubst tbl e pre segs = Some out -> subst_angles fuel tbl e (arender pre segs) = SOk out.
 Proof. exact angles_spec. Qed.
 Print Assumptions C13_angles_spec.
+
+(* comments removed: from the first '#' up to, not including, the end of the line; a line without '#' is unchanged *)
+Theorem C13_comment_removed : forall pre cmt rest, lacks hash pre -> lacks nl cmt ->
+  strip_comment (pre ++ hash :: cmt ++ nl :: rest) = pre ++ nl :: rest /\ strip_comment (pre ++ hash :: cmt) = pre.
+Proof. exact strip_comment_spec. Qed.
+Print Assumptions C13_comment_removed.
+
+(* one line of the file inside process_list: with the comment cut and the newline ensured, if the text reads
+   pre <e1> t1 <e2> t2 ... and, with every <ei> replaced by the decimal value of ei under the current bindings, reads
+   pre' {a,b,..} u1 {..} u2 ..., then what is appended to the output is the concatenation of the hand expansion, leftmost
+   group slowest (nothing when that is blank), and the bindings are unchanged for the lines below *)
+Theorem C13_line_is_hand_expansion : forall tbl e line0 rest out apre asegs bpre bsegs l2,
+  (if ends_with_nl (strip_comment line0) then strip_comment line0 else strip_comment line0 ++ [nl]) = arender apre asegs ->
+  match_length (arender apre asegs) = None ->
+  afree apre -> Forall (fun s => afree (fst s) /\ afree (snd s)) asegs -> asubst tbl e apre asegs = Some l2 ->
+  l2 = render bpre bsegs -> bfree bpre -> Forall seg_ok bsegs ->
+  process tbl e (line0 :: rest) out =
+  process tbl e rest (if all_space (List.concat (expand bpre bsegs)) then out else out ++ List.concat (expand bpre bsegs)).
+Proof. exact process_line_is_hand_expansion. Qed.
+Print Assumptions C13_line_is_hand_expansion.
+
+(* all other text untouched *)
+Theorem C13_plain_line_untouched : forall tbl e body rest out, lacks hash body -> afree body -> bfree body ->
+  match_length (body ++ [nl]) = None -> all_space (body ++ [nl]) = false ->
+  process tbl e ((body ++ [nl]) :: rest) out = process tbl e rest (out ++ body ++ [nl]).
+Proof. exact process_plain_line. Qed.
+Print Assumptions C13_plain_line_untouched.
+
+(* earlier `length` definitions: the line writes nothing and its name is bound to the value for every line below *)
+Theorem C13_length_line_binds : forall tbl e line0 rest out name src x v,
+  match_length (if ends_with_nl (strip_comment line0) then strip_comment line0 else strip_comment line0 ++ [nl]) = Some (name, src) ->
+  lookup_expr tbl src = Some x -> eval e x = Some v ->
+  process tbl e (line0 :: rest) out = process tbl (bindv e name v) rest out.
+Proof. exact process_length_line. Qed.
+Print Assumptions C13_length_line_binds.
+
+(* ... and which lines those are: blanks, "length", blanks, a word, blanks, "=", blanks, the expression up to the newline *)
+Theorem C13_length_line_shape : forall ws0 ws1 w ws2 ws3 src,
+  blanks ws0 -> blanks ws1 -> ws1 <> [] -> (forall c, In c w -> is_word c = true) -> w <> [] -> blanks ws2 -> blanks ws3 ->
+  lacks nl src -> (match src with c :: _ => is_space c = false | [] => True end) ->
+  match_length (ws0 ++ chars "length" ++ ws1 ++ w ++ ws2 ++ "="%char :: ws3 ++ src ++ [nl]) = Some (unchars w, src).
+Proof. exact match_length_spec. Qed.
+Print Assumptions C13_length_line_shape.
+
+(* text already written is never changed by the lines below: the result is the old output followed by a text that does
+   not depend on it *)
+Theorem C13_output_only_appended : forall tbl lines e out r, process tbl e lines out = POk r ->
+  exists t, r = out ++ t /\ forall out', process tbl e lines out' = POk (out' ++ t).
+Proof. exact process_appends. Qed.
+Print Assumptions C13_output_only_appended.
